@@ -468,14 +468,15 @@ def judge(run):
 
 def attribute_h(run, v):
     """violations of a run in which F-C07h's history occurred and which are of the kinds that history explains (an internal
-    AttributeError on self._sock inside reconnect()/the loop, a stall / lost wake-up on a replaced socket, a third connection
-    opened by the loop thread's own reconnect) are reported under the finding's signature; everything else stays as it is"""
+    AttributeError on self._sock inside reconnect()/the loop, a stall / lost wake-up on a replaced socket, a connection opened
+    by the loop thread's own reconnect whose CONNECT the application thread's reconnect() then drains from the queue) are
+    reported under the finding's signature; everything else stays as it is"""
     if not v or not overlapped(run):
         return v
     out, folded = [], []
     for x in v:
         sig = x["signature"]
-        if sig in H_KINDS or (sig.startswith("internal-error:AttributeError@") and "NoneType" in x["what"] and "_sock" in x["what"]):
+        if sig in H_KINDS or sig == SIG_A or (sig.startswith("internal-error:AttributeError@") and "NoneType" in x["what"] and "_sock" in x["what"]):
             folded.append(x)
         else:
             out.append(x)
